@@ -2,14 +2,14 @@
 # Coverage audit (advisory, not a registered check): which functions / lines of /repo/src do the
 # monitors' workloads actually execute?  Builds harness/props with -Cinstrument-coverage on the
 # nightly toolchain (llvm-cov / llvm-profdata live in its sysroot), runs every generic property's
-# workload at tier lite, merges the profiles and writes
+# workload at tier miri (the smallest; instrumented runs are 50-100x slower), merges the profiles and writes
 #   /verif/design/coverage_summary.txt   per-file line/function coverage of /repo/src
 #   /verif/design/coverage_unreached.txt functions of /repo/src with zero executions
 # (C11 is skipped: its own workload is dominated by huge-precision calls that take minutes under
 # the opt-level-1 coverage build, and its sweep re-runs the other workloads anyway.)
 # usage: tools/coverage_audit.sh [tier] [seed]
 set -euo pipefail
-TIER=${1:-lite}
+TIER=${1:-miri}
 SEED=${2:-1}
 H=/verif/harness
 TD=$H/target/cov
